@@ -251,8 +251,10 @@ func (e *Executor) RunTask(ctx context.Context, call *Call) error {
 			}
 
 			if err := e.runCommand(ctx, t, call, i); err != nil {
-				if err2 := e.statusOnError(t); err2 != nil {
-					e.Logger.VerboseErrf(logger.Yellow, "task: error cleaning status on error: %v\n", err2)
+				if !e.Dry {
+					if err2 := e.statusOnError(t); err2 != nil {
+						e.Logger.VerboseErrf(logger.Yellow, "task: error cleaning status on error: %v\n", err2)
+					}
 				}
 
 				exitCode, isExitError := interp.IsExitStatus(err)
